@@ -79,6 +79,9 @@ def RB.new (lines cols : Int) : RB :=
 
 def RB.depth (rb : RB) : Nat := rb.stack.length
 
+/-- The buffer's own bounds. -/
+def RB.bounds (rb : RB) : Rect := ⟨0, 0, rb.lines, rb.cols⟩
+
 /-- Cell `(L, C)` (buffer coordinates) passes `xlate_and_clip`. -/
 def RB.inClip (rb : RB) (L C : Int) : Bool :=
   rb.clip.lines != 0 && rb.clip.memb L C
